@@ -7,6 +7,7 @@ PS = "include/rtosc/port-sugar.h"
 RC = "src/rtosc.c"
 PC = "src/cpp/ports.cpp"
 SF = "src/cpp/savefile.cpp"
+MM = "src/cpp/midimapper.cpp"
 MUTANTS = [
  dict(id="C06", name="publish_before_copy", edits=[(TL,
   """    const off_t  next_write = (ring->write + len)%ring->size;
@@ -207,4 +208,17 @@ MUTANTS = [
  dict(id="C13", name="depends_edges_missing", edits=[(SF, '            const char* dep_types[3] = { "enabled by", "depends", "default depends" };', '            const char* dep_types[2] = { "enabled by", "default depends" };')]),
  dict(id="C13", name="parents_not_scanned_for_dependencies", edits=[(SF, "          cur_portname.resize(last_slash))\n    {", "          cur_portname.resize(0))\n    {")]),
  dict(id="C13", name="edge_direction_reversed", edits=[(SF, "            ++n_input_edges[dep];", "            (void)dep;"), (SF, "            if(--n_input_edges[dependee] == 0)\n                no_incoming_edge.push(dependee);", "            (void)dependee;")]),
+
+ # ---- C20 MIDI learn
+ dict(id="C20", name="bijection_offset_max", edits=[(MM, "        return x/((1<<14)*1.0)*(max-min)+min;", "        return x/((1<<14)*1.0)*(max-min)+max;")]),
+ dict(id="C20", name="killmap_keeps_the_killed_id", edits=[(MM, "        if(get<0>(m.mapping[i]) != ID)\n            nmapping[j++] = m.mapping[i];", "        if(get<0>(m.mapping[i]) == ID || j + 1 < nmapping.size())\n            { if(j < nmapping.size()) nmapping[j++] = m.mapping[i]; }")]),
+ dict(id="C20", name="learn_queue_served_lifo", edits=[(MM, "    std::string addr = std::get<0>(learnQueue.front());\n    bool coarse      = std::get<1>(learnQueue.front());\n\n    learnQueue.pop_front();", "    std::string addr = std::get<0>(learnQueue.back());\n    bool coarse      = std::get<1>(learnQueue.back());\n\n    learnQueue.pop_back();")]),
+ dict(id="C20", name="fine_request_learned_as_coarse", edits=[(MM, "    nstorage->mapping = nstorage->mapping.insert(make_tuple(ID, coarse, mapped_ID));", "    nstorage->mapping = nstorage->mapping.insert(make_tuple(ID, true, mapped_ID));")]),
+ dict(id="C20", name="pending_check_removed", edits=[(MM, "    if((!storage || !storage->handleCC(ID, val, backend)) && !pending.has(ID) && watchSize) {", "    if((!storage || !storage->handleCC(ID, val, backend)) && watchSize) {")]),
+ dict(id="C20", name="remap_keeps_old_binding", edits=[(MM, "    unMap(addr, coarse);\n    learnQueue.push_back(std::make_pair(addr,coarse));", "    learnQueue.push_back(std::make_pair(addr,coarse));")]),
+ dict(id="C20", name="unmap_sends_no_snapshot", edits=[(MM, "    MidiMapperStorage *nstorage = storage->clone();\n    killMap(kill_id, *nstorage);\n    storage = nstorage;\n\n    //TODO clean up unused value and callback objects\n\n    char buf[1024];\n    rtosc_message(buf, 1024, \"/midi-learn/midi-bind\", \"b\", sizeof(storage), &storage);\n    rt_cb(buf);\n}\n\nvoid MidiMappernRT::delMapping", "    MidiMapperStorage *nstorage = storage->clone();\n    killMap(kill_id, *nstorage);\n    storage = nstorage;\n}\n\nvoid MidiMappernRT::delMapping")]),
+ dict(id="C20", name="special_case_shift_wrong", edits=[(MM, "        rtosc_message(buf, 1024, addr.c_str(), \"i\", 0x7f&(x>>7));", "        rtosc_message(buf, 1024, addr.c_str(), \"i\", 0x7f&(x>>5));")]),
+ dict(id="C20", name="int_ports_driven_with_float", edits=[(MM, "    char type = 'f';\n    if(strstr(port.name, \":i\"))\n        type = 'i';\n    std::function<void(int16_t, MidiMapperStorage::write_cb cb)> tmp =", "    char type = 'f';\n    std::function<void(int16_t, MidiMapperStorage::write_cb cb)> tmp =")]),
+ dict(id="C20", name="storage_matches_first_mapping_only_by_index", edits=[(MM, "        if(std::get<0>(mapping[i]) == ID)\n        {\n            bool coarse = std::get<1>(mapping[i]);\n            int  ind    = std::get<2>(mapping[i]);", "        if(std::get<0>(mapping[i]) == ID)\n        {\n            bool coarse = std::get<1>(mapping[i]);\n            int  ind    = i < values.size() ? i : std::get<2>(mapping[i]);")]),
+ dict(id="C20", name="watch_not_consumed", edits=[(MM, "        watchSize--;\n        pending.insert(ID);", "        pending.insert(ID);")]),
 ]
